@@ -12,7 +12,7 @@ skip_tests = "--skip-tests" in sys.argv
 out = os.path.join(V, "seeded", name)
 wt = tempfile.mkdtemp(prefix="verif-confirm-"); os.rmdir(wt)
 subprocess.run(["git", "-C", "/repo", "worktree", "add", "--detach", wt, "HEAD"], capture_output=True, check=True)
-env = dict(os.environ, CARGO_TARGET_DIR="/tmp/confirm-target", CARGO_NET_OFFLINE="true")
+env = dict(os.environ, CARGO_TARGET_DIR=os.environ.get("CONFIRM_TARGET", "/tmp/confirm-target"), CARGO_NET_OFFLINE="true")
 log = {}
 def run(cmd, cwd=None, timeout=3600):
     t = time.time()
